@@ -65,10 +65,32 @@ type FuncContract struct {
 	Nilable  []string
 	Mutates  bool // may change unmodelled world state (observer results)
 	Linear     bool // products of two non-constant terms are abstracted (uninterpreted nlmul)
+	GhostVars  []*GhostVar
+	OnCalls    []*OnCall
 	MathLemma  bool // closed arithmetic lemma (no Go function)
 	MathParams []SParam
 	Patterns   []*Clause
 	Uses       []string // math lemmas made available (as quantified axioms) in this function's VC
+}
+
+// GhostVar is specification-only state of one function activation, updated at call sites
+// by OnCall rules (e.g. "state mutated since the last snapshot").
+type GhostVar struct {
+	Name string
+	Type string // "int" or "bool"
+	Init *Clause
+	Line int
+}
+
+// OnCall: when the function calls something whose (method/function/field) name is one of
+// Names, the ghost variables are assigned simultaneously; expressions may mention
+// result / argN of that call and the current ghost values.
+type OnCall struct {
+	Names []string
+	Vars  []string
+	Exprs []*Clause
+	Line  int
+	used  bool
 }
 
 // AtCall pins the arguments of a (havocked) call inside the function body:
@@ -112,7 +134,7 @@ type ContractFile struct {
 var clauseKeywords = map[string]bool{
 	"serves": true, "requires": true, "ensures": true, "modifies": true, "nowrap": true,
 	"arith": true, "loop": true, "invariant": true, "ghost": true, "trusted": true,
-	"atcall": true, "uses": true, "pattern": true, "opaque": true, "loopmodifies": true, "nopanic": true, "nilable": true, "mutates": true, "linear": true, "assume-invariant": true,
+	"atcall": true, "uses": true, "pattern": true, "opaque": true, "loopmodifies": true, "nopanic": true, "nilable": true, "mutates": true, "linear": true, "ghostvar": true, "oncall": true, "assume-invariant": true,
 }
 
 func ParseContractFile(path, pkgPath string) (*ContractFile, error) {
@@ -277,6 +299,41 @@ func ParseContractText(path, pkgPath, text string) (*ContractFile, error) {
 					return nil, fmt.Errorf("%s:%d: assume-invariant outside loop", path, rl.line)
 				}
 				curLoop.Assumes = append(curLoop.Assumes, addExprClause("assume-invariant", rest, rl.line))
+			case "ghostvar":
+				// ghostvar name type = init
+				eq := strings.Index(rest, "=")
+				if eq < 0 {
+					return nil, fmt.Errorf("%s:%d: ghostvar needs an initial value", path, rl.line)
+				}
+				hd := strings.Fields(rest[:eq])
+				if len(hd) != 2 {
+					return nil, fmt.Errorf("%s:%d: ghostvar name type = init", path, rl.line)
+				}
+				gv := &GhostVar{Name: hd[0], Type: hd[1], Line: rl.line}
+				gv.Init = addExprClause("ghostinit", strings.TrimSpace(rest[eq+1:]), rl.line)
+				curF.GhostVars = append(curF.GhostVars, gv)
+				contTarget = nil
+			case "oncall":
+				// oncall Name1 Name2 ...: v1 = e1; v2 = e2
+				colon := strings.Index(rest, ":")
+				if colon < 0 {
+					return nil, fmt.Errorf("%s:%d: oncall names: assignments", path, rl.line)
+				}
+				oc := &OnCall{Names: strings.Fields(rest[:colon]), Line: rl.line}
+				for _, as := range strings.Split(rest[colon+1:], ";") {
+					as = strings.TrimSpace(as)
+					if as == "" {
+						continue
+					}
+					eq := strings.Index(as, "=")
+					if eq < 0 || (eq+1 < len(as) && as[eq+1] == '=') {
+						return nil, fmt.Errorf("%s:%d: bad oncall assignment %q", path, rl.line, as)
+					}
+					oc.Vars = append(oc.Vars, strings.TrimSpace(as[:eq]))
+					oc.Exprs = append(oc.Exprs, addExprClause("oncall", strings.TrimSpace(as[eq+1:]), rl.line))
+				}
+				curF.OnCalls = append(curF.OnCalls, oc)
+				contTarget = nil
 			case "linear":
 				curF.Linear = true
 				contTarget = nil
